@@ -60,7 +60,7 @@ SmallNum(n) == IF n >= 0 THEN Norm(FALSE, IF n = 0 THEN <<>> ELSE IF n < 10 THEN
 VPCheck(a, raw) ==     \* "" when accepted, otherwise the error kind
   LET vp == a.vp IN
   CASE vp.k = "string" -> IF IsUtf8(raw) THEN "" ELSE "InvalidUtf8"
-    [] vp.k = "os" -> ""
+    [] vp.k \in {"os", "path"} -> (IF vp.k = "path" /\ raw = <<>> THEN "InvalidValue" ELSE "")   \* PathBufValueParser rejects the empty string
     [] vp.k = "bool" -> IF BoolParse(raw).k = "Ok" THEN "" ELSE BoolParse(raw).k
     [] vp.k = "u8" -> LET r == RangedParse("u8", [lk |-> "unb", lo |-> SmallNum(0), hk |-> "unb", hi |-> SmallNum(0)], raw) IN IF r.k = "Ok" THEN "" ELSE r.k
     [] vp.k = "int" -> LET r == RangedParse("i64", [lk |-> "inc", lo |-> SmallNum(vp.lo), hk |-> "inc", hi |-> SmallNum(vp.hi)], raw) IN IF r.k = "Ok" THEN "" ELSE r.k
@@ -537,7 +537,9 @@ RunLevel(c, argv, start, cur, fsat, fsskip) ==
           [] lr.t = "err" -> [ok |-> FALSE, panic |-> FALSE, st |-> lr.st, kind |-> lr.kind, sub |-> NoSub]
           [] lr.t = "panic" -> [ok |-> FALSE, panic |-> TRUE, st |-> lr.st, kind |-> lr.kind, sub |-> NoSub]
           [] lr.t = "helpsub" ->
-               [ok |-> FALSE, panic |-> FALSE, st |-> lr.st, kind |-> HelpWalk(c, SubSeq(argv, lr.x.i + 1, Len(argv)), 1), sub |-> NoSub]
+               \* (the words walked are kept - in an *unset* sub slot - for the predicates that need the command the walk ended in)
+               [ok |-> FALSE, panic |-> FALSE, st |-> lr.st, kind |-> HelpWalk(c, SubSeq(argv, lr.x.i + 1, Len(argv)), 1),
+                sub |-> [NoSub EXCEPT !.name = HELP, !.lv = SubSeq(argv, lr.x.i + 1, Len(argv))]]
           [] lr.t = "ext" ->
                LET rest == SubSeq(argv, lr.x.i + 1, Len(argv))
                    em == <<[id |-> "", grp |-> FALSE, src |-> SrcCli, idx |-> <<>>, occ |-> <<rest>>, ic |-> FALSE]>>
